@@ -53,7 +53,9 @@ def gen_cases(tier, seed):
         else:
             o["solve_time"] = 1.0 if not scr else 0.3
         if scr:
-            o["max_iterations_per_step"] = 3000
+            # tight tolerance, so that what remains of the iteration does not dominate the difference between the two statements
+            o["max_iterations_per_step"] = 5000
+            o["screening_tolerance"] = 1e-6
         Ak = ["uniform", "ramp", "loop", "ramp" if (k // 4) % 2 == 0 else "uniform_float"][k % 4]  # (k%4==3: screening, also with a time-dependent field)
         drive = {"A": S.field_spec(rng, dev, o, Ak, b=0.25), "currents": S.current_spec(rng, dev, o, ["const", "callable"][k % 2] if nt else "none", strength=0.15)}
         if k % 4 in (1, 3):
